@@ -66,7 +66,8 @@ def model_rows(skel, g, prefix="t"):
     return rows
 
 
-OPS = ("fancy", "mask", "slice_tail", "slice_rev", "concat", "sort_by", "replace", "add_fields", "add_fields_twice", "single", "rows_roundtrip")
+OPS = ("fancy", "mask", "slice_tail", "slice_rev", "concat", "sort_by", "replace", "add_fields", "add_fields_twice", "single", "rows_roundtrip",
+       "replace_wrong_len")
 
 
 class TableOps(Harness):
@@ -83,7 +84,7 @@ class TableOps(Harness):
         n = 3 if tier == "quick" else 4
         for tab in TABLES:
             for op in OPS:
-                if op in ("sort_by", "replace", "add_fields", "add_fields_twice", "rows_roundtrip") and tab == "seqentry":
+                if op in ("sort_by", "replace", "add_fields", "add_fields_twice", "rows_roundtrip", "replace_wrong_len") and tab == "seqentry":
                     continue
                 out.append(dict(table=tab, n=n, op=op))
             if tier == "thorough":
@@ -160,6 +161,16 @@ class TableOps(Harness):
             ints = [c for c, (nm, kind) in enumerate(TABLES[skel["table"]]) if kind == "int"]
             return dict(len=len(tab), rows=[[ctx.lst(getattr(e, TABLES[skel["table"]][c][0])) for c in ints] for e in back],
                         names=[str(e.chromosome) for e in back])
+        if skel["op"] == "replace_wrong_len":
+            from bionumpy.bnpdataclass import replace
+            outcomes = []
+            for m in (skel["n"] - 1, skel["n"] + 1):       # a column that is one row short / one row long must be refused
+                try:
+                    r = replace(t, start=ctx.arr([x[f"new0_{j}"] for j in range(m)], "int64"))
+                    outcomes.append(("accepted", len(r)))
+                except Exception as e:
+                    outcomes.append(("raised", type(e).__name__))
+            return dict(outcomes=outcomes, operand=observe(ctx, skel, t))
         r = self._apply(skel["op"], t, x, ctx, 0, log, skel)
         if skel.get("then"):
             r = self._apply(skel["then"], r, x, ctx, 1, log, skel)
@@ -219,6 +230,8 @@ class TableOps(Harness):
         if isinstance(out, Exc):
             return out.type == "IndexError" and "harness" in out.msg
         g = lambda nm: x[nm].t
+        if skel["op"] == "replace_wrong_len":
+            return all(o[0] == "raised" for o in out["outcomes"])       # every table has columns of equal length: refuse the column
         if skel["op"] == "rows_roundtrip":
             ints = [c for c, (nm, kind) in enumerate(TABLES[skel["table"]]) if kind == "int"]
             if out["len"] != skel["n"] or len(out["rows"]) != skel["n"] or out["names"] != ["c1", "chrX", "c1", "c22"][:skel["n"]]:
@@ -282,6 +295,10 @@ class TableOps(Harness):
                 return None
             return f"raised {cout}"
         g = lambda nm: cx[nm]
+        if skel["op"] == "replace_wrong_len":
+            bad = [o for o in cout["outcomes"] if o[0] != "raised"]
+            return None if not bad else (f"replace(table of {skel['n']} rows, start=<column of {skel['n'] - 1} / {skel['n'] + 1} values>) was accepted: "
+                                         f"{cout['outcomes']} (a table must have columns of equal length)")
         if skel["op"] == "rows_roundtrip":
             ints = [c for c, (nm, kind) in enumerate(TABLES[skel["table"]]) if kind == "int"]
             exp = [[g(f"t{r}_{c}") for c in ints] for r in range(skel["n"])]
